@@ -343,3 +343,41 @@ func init() {
 		}
 	})
 }
+
+// ------------------------------------------------------------------ C15.R7
+// End of log vs torn record: the decoder hands the reader's raw error (io.EOF: "the log ends here, go on
+// and append") back only when not a single byte of a next record was read; any partial record — also one cut
+// inside its 4-byte checksum — is a data corruption error, which is what makes the restart repair the tail
+// before new records are appended behind it.
+func init() {
+	register("C15", "R7", "K1", "the WAL decoder reports a clean end of log only at a record boundary (a partial record, however short, is corruption)", 2, func(c *Ctx) {
+		w := c.W
+		f := c.fn("consensus", "WALDecoder.Decode")
+		if f == nil {
+			return
+		}
+		fk := funcKey(f)
+		n := 0
+		for _, r := range returnsOf(f) {
+			ret := r.(*ssa.Return)
+			e := w.expr(ret.Results[1])
+			if !regexp.MustCompile(`^dec\.rd\.Read\(.*\)#1$`).MatchString(e) {
+				continue
+			}
+			n++
+			c.guards(f, ret, fk+" :: hand back the reader's end-of-log error", 0,
+				guardCmp("no byte of a next record was read", `dec\.rd\.Read\(.*\)#0`, "<=", "0"))
+		}
+		c.Check(n == 1, fk+" :: one clean end-of-log exit", w.pos(f.Pos()), "1", fmt.Sprintf("%d raw-error returns", n))
+		// every other failure of the three reads is a corruption error
+		for _, r := range returnsOf(f) {
+			ret := r.(*ssa.Return)
+			if isNilConst(ret.Results[1]) || !isNilConst(ret.Results[0]) {
+				continue // the success return hands back the (nil) error of the last conversion
+			}
+			e := w.expr(ret.Results[1])
+			ok := regexp.MustCompile(`^dec\.rd\.Read\(.*\)#1$`).MatchString(e) || e == "&complit" || strings.Contains(e, "DataCorruptionError")
+			c.Check(ok, fk+" :: failures other than end-of-log are corruption errors", w.ipos(ret), e, "returns "+e)
+		}
+	})
+}
